@@ -350,15 +350,40 @@ def check(spec, ctx):
     flat_dir.mkdir()
     (flat_dir / "flat.top").write_text("\n".join(flat + tail) + "\n")
     cwd = os.getcwd()
+
+    def decoys(where):
+        """files with the relative names used in #include lines, placed in the working directory of the
+        process: an include is looked up relative to the including file, so these are never read"""
+        count = 0
+        for src, items in spec["files"].items():
+            for it in items:
+                branches = [it] if it["k"] == "include" else []
+                if it.get("cond") and isinstance(it["cond"].get("else"), dict) and it["cond"]["else"].get("k") == "include":
+                    branches.append(it["cond"]["else"])
+                for br in branches:
+                    written = rel_include(src, br["path"])
+                    right = (root / posixpath.dirname(src) / written).resolve()
+                    decoy = (where / written).resolve()
+                    if decoy == right or decoy.exists() or not str(decoy).startswith(str(ctx.dir.resolve())):
+                        continue
+                    decoy.parent.mkdir(parents=True, exist_ok=True)
+                    decoy.write_text("#error this file is not part of the include tree\n")
+                    count += 1
+        if count:
+            ctx.label("decoy_in_working_directory")
+
     try:
         if spec["path_mode"] == "abs":
             arg = str(root / "main.top")
+            decoys(__import__("pathlib").Path(cwd))
         elif spec["path_mode"] == "rel":
             os.chdir(root)
             arg = "main.top"
+            decoys(root)
         else:
             os.chdir(ctx.dir)
             arg = "tree/main.top"
+            decoys(ctx.dir)
         try:
             tree = Topology.from_gmx_topfile(arg, "test")
             tree_err = None
